@@ -58,6 +58,7 @@ def _case(draw):
             continue
         ln = draw(st.sampled_from(wl))
         ln["words"].append(W(form.format(z=b["zid"]), *([("links", "zid:" + b["zid"])] if form == "[{z}]" else [])))
+    link_named_like_tag = []
     # a link / URL fragment whose id equals the NAME of a tag the note inherits ([#area], [@ctx]):
     # it is not that tag, so the inherited tag must still be made explicit
     for rel, pg in d.items():
@@ -73,8 +74,11 @@ def _case(draw):
                 continue
             ln = draw(st.sampled_from(wl))
             if name.replace("_", "a").isalnum() and not re.fullmatch(r"P\d|o|x|\d+", name):
-                w = draw(st.sampled_from([W(f"[#{name}]", ("links", "global:" + name)), W(f"[@{name}]", ("links", "ref:" + name))]))
-                ln["words"].append(w)
+                # mostly the link whose text contains the tag's written form ("[#foo]" for an inherited #foo)
+                same_sym = W(f"[#{name}]", ("links", "global:" + name)) if kind_ == "areas" else W(f"[@{name}]", ("links", "ref:" + name))
+                other_sym = W(f"[@{name}]", ("links", "ref:" + name)) if kind_ == "areas" else W(f"[#{name}]", ("links", "global:" + name))
+                ln["words"].append(same_sym if draw(st.integers(0, 3)) else other_sym)
+                link_named_like_tag.append(it["zid"])
     moves = []
     for rel, it in items:
         moves.append({"zid": it["zid"], "dest": draw(st.sampled_from(DEST_KINDS)),
@@ -98,7 +102,8 @@ def _case(draw):
             if draw(st.integers(0, 2)) == 0:
                 planted.append({"zid": it["zid"], "dest": "same", "marker": draw(st.sampled_from([None, None, "x", "~"])),
                                 "other": 0})
-    moves = planted[:2] + moves
+    front = [m for m in moves if m["zid"] in link_named_like_tag][:1]
+    moves = planted[:2] + front + [m for m in moves if m not in front]
     return {"dir": d, "today": "2024-06-15", "moves": moves}
 
 
